@@ -62,7 +62,7 @@ theorem cmp_lt_eq_evLt {α : Type} (cmp : α → α → Ordering) (vs : List α)
   unfold osvBefore toRank
   simp only []
   cases h : compare (rank a.v) (rank b.v) <;>
-    simp_all [Nat.compare_eq_lt, Nat.compare_eq_eq, Nat.compare_eq_gt] <;> omega
+    simp_all [Nat.compare_eq_lt, Nat.compare_eq_gt] <;> omega
 
 open Scalibr.Upgrade in
 /-- **C18 over the ecosystem's comparison.** Let `cmp` be the comparison `IsAffected` uses (with "0" below
@@ -99,9 +99,23 @@ theorem C18_range_cmp {α : Type} (cmp : α → α → Ordering) (vs : List α) 
       simp only [he]
       cases e.k <;> simp only [] <;>
         (cases h : compare (rank q) (rank e.v) <;>
-          simp_all [Nat.compare_eq_lt, Nat.compare_eq_eq, Nat.compare_eq_gt] <;> omega)
+          simp_all [Nat.compare_eq_lt, Nat.compare_eq_gt] <;> omega)
     rw [hstep]
     exact ih (fun x hx => hl x (by simp [hx])) _
+
+theorem natcmp_lt_dec (a b : Nat) : (compare a b == Ordering.lt) = decide (a < b) := by
+  rcases Nat.lt_trichotomy a b with h | h | h
+  · simp [Nat.compare_eq_lt.mpr h, h]
+  · subst h; simp
+  · have : ¬ a < b := by omega
+    simp [Nat.compare_eq_gt.mpr h, this]
+theorem natcmp_ngt_dec (a b : Nat) : (compare a b != Ordering.gt) = decide (a ≤ b) := by
+  rcases Nat.lt_trichotomy a b with h | h | h
+  · have : a ≤ b := by omega
+    simp [Nat.compare_eq_lt.mpr h, this]
+  · subst h; simp
+  · have : ¬ a ≤ b := by omega
+    simp [Nat.compare_eq_gt.mpr h, this]
 
 open Scalibr.Upgrade in
 /-- the order-free specification stated with `cmp` itself is `osvDecl` on the ranks (no well-formedness needed) -/
@@ -122,15 +136,11 @@ theorem C18_decl_cmp {α : Type} (cmp : α → α → Ordering) (vs : List α) (
     intro c hc
     have h1 := hr i.v (hes i hi) c.v (hes c hc)
     have h2 := hr c.v (hes c hc) q hq
-    simp only [Function.comp, toRank, h1, h2]
-    cases c.k <;> simp only [] <;>
-      (cases h : compare (rank i.v) (rank c.v) <;> cases h' : compare (rank c.v) (rank q) <;>
-        simp_all [Nat.compare_eq_lt, Nat.compare_eq_eq, Nat.compare_eq_gt] <;> omega)
+    simp only [Function.comp, toRank, h1, h2, natcmp_lt_dec, natcmp_ngt_dec]
+    rfl
   rw [hinner]
-  simp only [Function.comp, toRank, hiq]
-  congr 1
-  cases h : compare (rank i.v) (rank q) <;>
-    simp_all [Nat.compare_eq_lt, Nat.compare_eq_eq, Nat.compare_eq_gt] <;> omega
+  simp only [Function.comp, toRank, hiq, natcmp_ngt_dec]
+  rfl
 
 open Scalibr.Upgrade in
 /-- the code's decision is the order-free specification stated with `cmp` itself -/
